@@ -483,3 +483,27 @@ def poison_results(tree, typed, kinds=("a", "zz")):
         if f:
             return f
     return None
+
+
+def replace_same_length(shape_nodes, typed):
+    """aimed histories that change a child list WITHOUT changing its length (used with probe=[0]: one query before the
+    first op, none in between): remove a child + add a new one, move one out + another in, sort"""
+    flat = []
+
+    def go(nodes, p):
+        for pos, (lbl, kind, did, kids) in enumerate(nodes):
+            i = len(flat)
+            flat.append((p, pos, kind))
+            go(kids, i)
+
+    go(shape_nodes, -1)
+    for i, (p, pos, kind) in enumerate(flat):
+        for before in (None, True):
+            yield [["remove", i], ["add", p, 0, kind, f"r{i}", before]]
+        if not typed:
+            for j, (q, _, _) in enumerate(flat):
+                if q != p and q != i and j != p:
+                    yield [["move", i, q, None], ["move", j, p, True]]
+    for p in sorted({q for q, _, _ in flat}):
+        yield [["sort", p, True, False]]
+        yield [["sort", p, False, False], ["sort", p, True, False]]
